@@ -913,7 +913,7 @@ func quiet() {
 
 func gen(c *core.Ctx) error {
 	quiet()
-	c.Rule("operation sequences establish (real full handshake, AES or plaintext) / store (entries with no key, empty key, AES/AESGCM 32-byte key, 16-byte key, BLOWFISH key; with/without policy; global or custom cache) / resume / renew / tick (virtual time) / Invalidate / InvalidateExpired against the real ServerHandshake; resumption requests: the real client, id only, wrong key, right key (scripted), unknown id, id differing in one character, with and without ResumeResponse, from another address. After a successful ServerHandshake the stream state is snapshotted before any application byte, then one application message is read and a canary message sent. Every step is compared with the Coq model; the oracle is independent bookkeeping of liveness and keys. Replays: either direction of a recorded resumed connection, whole and truncated at every frame boundary and inside frames, against a fresh connection with the session live / expired / invalidated. non-trivial = history with at least one successful resumption")
+	c.Rule("operation sequences establish (real full handshake, AES or plaintext) / store (entries with no key, empty key, AES/AESGCM 32-byte key, 16-byte key, BLOWFISH key; with/without policy; global or custom cache) / resume / renew / tick (virtual time) / Invalidate / InvalidateExpired against the real ServerHandshake; resumption requests: the real client, id only, wrong key, right key (scripted), unknown id, id differing in one character, with and without ResumeResponse, from another address. After a successful ServerHandshake the stream state is snapshotted before any application byte, then one application message is read and a canary message sent. Exhaustive: for a session of each of four kinds every sequence of up to 3 (thorough 4) operations over a 7-letter alphabet; longer sequences sampled. Every step is compared with the Coq model; the oracle is independent bookkeeping of liveness and keys. Replays: either direction of a recorded resumed connection, whole and truncated at every frame boundary and inside frames, against a fresh connection with the session live / expired / invalidated. non-trivial = history with at least one successful resumption")
 	c.Assume("the key is what the cache entry holds; AES-GCM itself is ideal (Lib/Sym.v)")
 	c.Exhaustive(false)
 
@@ -949,7 +949,40 @@ func gen(c *core.Ctx) error {
 			c.Count("directed")
 		}
 	}
-	n := 700
+	// exhaustive: one session of each kind, then EVERY sequence of up to 3 (thorough: 4) operations
+	// over resume-by-id-only / resume-by-a-key-holder / renew / tick (short) / tick (past expiry) /
+	// Invalidate / InvalidateExpired
+	maxLen := 3
+	if !c.Quick() {
+		maxLen = 4
+	}
+	type kind struct {
+		first  op
+		holder string
+	}
+	for _, k := range []kind{
+		{op{Kind: "est", Enc: true}, "legit"},
+		{op{Kind: "est", Enc: false}, "legit"},
+		{op{Kind: "raw", Key: "aes32", Pol: "auth"}, "rightkey"},
+		{op{Kind: "raw", Key: "nil", Pol: "auth"}, "wrongkey"},
+	} {
+		alpha := []op{R(1, "idonly", true), R(1, k.holder, true), {Kind: "renew", N: 1}, {Kind: "tick", Dt: 1500}, {Kind: "tick", Dt: 3000}, {Kind: "inval", N: 1}, {Kind: "sweep"}}
+		var rec func(prefix []op, depth int)
+		rec = func(prefix []op, depth int) {
+			if len(prefix) > 1 {
+				emit(c, history{Ops: append([]op(nil), prefix...)})
+				c.Count("exhaustive-sequences")
+			}
+			if depth == maxLen {
+				return
+			}
+			for _, a := range alpha {
+				rec(append(prefix, a), depth+1)
+			}
+		}
+		rec([]op{k.first}, 0)
+	}
+	n := 500
 	if !c.Quick() {
 		n = 6000
 	}
